@@ -9,6 +9,7 @@ from typing import (
     Iterable,
     List,
     Optional,
+    Set,
     Protocol,
     Tuple,
     Union,
@@ -114,7 +115,14 @@ def resolve1(x: object, default: object = None) -> Any:
     If this is an array or dictionary, it may still contains
     some indirect objects inside.
     """
+    seen: Optional[Set[int]] = None
     while isinstance(x, PDFObjRef):
+        if seen is None:
+            seen = set()
+        elif x.objid in seen:
+            # indirect objects whose values are references to each other
+            return default
+        seen.add(x.objid)
         x = x.resolve(default=default)
     return x
 
